@@ -21,7 +21,7 @@ RULE = ('cases 0..255: one weight each (exhaustive sweep every run) through prio
         'far-future ids of both parities delivered to a client or server in connection states idle and open, followed by a '
         'differential continuation against a twin that did not receive them; non-trivial = round trip compared or neutrality '
         'judged; distinct = hash of the case parameters')
-MINIMA = {'roundtrip_prioritize_checked': 256, 'roundtrip_headers_checked': 256, 'refusals_checked': 500, 'follow_up_calls_compared_after_refusal': 500,
+MINIMA = {'roundtrip_prioritize_checked': 256, 'roundtrip_headers_checked': 256, 'refusals_checked': 500, 'self_dependent_frames_judged': 100, 'follow_up_calls_compared_after_refusal': 500,
           'priority_frames_neutrality_checked': 3000, 'differential_continuations': 600, 'idle_connection_priority_cases': 150, 'roundtrip_headers_near_frame_size': 200}
 
 
@@ -280,10 +280,20 @@ def neutrality(rng, rep):
             return
     # self-dependency is an error
     if rng.random() < 0.2:
-        sid = rng.choice(known + [1, 2, 7])
-        res = h.send(wire.build_priority(sid, sid, False, 1))
+        sid = rng.choice(known + [1, 2, 7, 255, 256, 257, 258, 1001, 65537, 2 ** 31 - 2, 2 ** 31 - 1])
+        if rng.random() < 0.3:
+            # the same rule for priority fields carried by a HEADERS frame that opens the stream
+            sid = (h.peer_next if not e_client else None) or sid
+            sid = rng.choice([sid, sid + 256, sid + 1000]) if not e_client else sid
+            data = wire.build_headers(sid, hb(REQ), priority=(sid, rng.random() < 0.5, 10)) if not e_client else \
+                wire.build_priority(sid, sid, True, 200)
+        else:
+            data = wire.build_priority(sid, sid, rng.random() < 0.5, rng.choice([0, 1, 255]))
+        res = h.send(data)
+        rep.count('self_dependent_frames_judged')
         if res.exc is None and not any(f.type == wire.RST_STREAM for f in res.frames):
-            rep.violation('C23:self-dependent-priority-frame-accepted', 'PRIORITY(%d depends on itself) accepted' % sid, {})
+            rep.violation('C23:self-dependent-priority-frame-accepted', 'a frame making stream %d depend on itself was accepted: events %s' %
+                          (sid, [core.ev_brief(e) for e in res.events]), {'stream': sid})
         rep.nontrivial(('selfdep', e_client, sid))
         return
     # differential continuation: the twin that never saw the PRIORITY frames must behave identically
